@@ -115,6 +115,22 @@ def _link_text_as_written(element: inline.AutoLink | gfm_elements.Url) -> str:
 # Another solution might be to always put a newline after a closing block tag during
 # normalization, to avoid this confusion?
 # For now, just ignoring block tags.
+def _has_emphasis_after_letter(element: inline.Emphasis) -> bool:
+    """
+    Does an emphasis span directly inside this one start right after a letter or digit?
+    """
+    children = element.children
+    if not isinstance(children, list):
+        return False
+    siblings = cast(list[Any], children)
+    return any(
+        isinstance(child, inline.Emphasis)
+        and isinstance(before, inline.RawText)
+        and before.children[-1:].isalnum()
+        for before, child in zip(siblings, siblings[1:])
+    )
+
+
 class CustomHTMLBlock(HTMLBlock):
     @override
     @classmethod
@@ -435,6 +451,7 @@ class MarkdownNormalizer(Renderer):
         self._in_heading: bool = False  # Track if we're rendering a heading
         self._in_table_cell: bool = False  # Track if we're rendering a table cell
         self._emphasis_depth: int = 0  # How many (single) emphasis spans enclose the current node
+        self._emphasis_in_word: bool = False  # Set for a nested emphasis span next to a letter
         # Reverse index of the current document's link reference definitions (see render_link).
         self._ref_labels_source: Any = None
         self._ref_labels: dict[Any, str] = {}
@@ -776,12 +793,40 @@ class MarkdownNormalizer(Renderer):
         # Emphasis nested in emphasis (`*_x_*`, `***_x_***`) needs the other delimiter for the
         # inner span: with `*` everywhere the runs of stars merge (`**x**`, `****x****`) and
         # read as something else.
-        delimiter = "_" if self._emphasis_depth % 2 else "*"
+        # A `_` next to a letter or digit neither opens nor closes emphasis (`*a _b_c d*`),
+        # there it has to be `*` (which reads correctly inside a word: `*a *b*c d*`).
+        in_word, self._emphasis_in_word = self._emphasis_in_word, False
+        if in_word:
+            delimiter = "*"
+        elif self._emphasis_depth % 2:
+            delimiter = "_"
+        elif self._emphasis_depth == 0 and _has_emphasis_after_letter(element):
+            # `_one un*der* two_`: written with stars, the star after `un` would close the span.
+            delimiter = "_"
+        else:
+            delimiter = "*"
         self._emphasis_depth += 1
         try:
             return f"{delimiter}{self.render_children(element)}{delimiter}"
         finally:
             self._emphasis_depth -= 1
+
+    @override
+    def render_children(self, element: Any) -> Any:
+        children = element.children
+        if not self._emphasis_depth or not isinstance(children, list):
+            return super().render_children(element)
+        # Inside emphasis: tell a nested emphasis span whether it touches a letter or digit.
+        parts: list[str] = []
+        siblings = cast(list[Any], children)
+        for i, child in enumerate(siblings):
+            if isinstance(child, inline.Emphasis):
+                before = parts[-1][-1:] if parts else ""
+                following = siblings[i + 1] if i + 1 < len(siblings) else None
+                after = following.children[:1] if isinstance(following, inline.RawText) else ""
+                self._emphasis_in_word = before.isalnum() or after.isalnum()
+            parts.append(self.render(child))
+        return "".join(parts)
 
     def render_strong_emphasis(self, element: inline.StrongEmphasis) -> str:
         return f"**{self.render_children(element)}**"
